@@ -34,6 +34,13 @@ import (
 //	   NEXT call has to close them, which P1 checks).
 //	P3 no call panics and every call returns (within one probe timeout of virtual time when active
 //	   probing is on, as in stop-vs-probe-schedule).
+//	P4 "shutdown always completes within the configured shutdown timeout ... pooled connections are
+//	   closed": no shutdown call takes longer than server.timeouts.shutdown of the configuration
+//	   (documented default 30 s), whatever the pool holds and whatever the peers of the pooled
+//	   connections do. The statement lists what a shutdown may wait for (requests in flight); the far
+//	   end of an IDLE pooled connection is not on that list, so every fresh connection gets a drawn
+//	   peer script (conn_test.go): answering, answering late, silent, not reading, chatty, closed,
+//	   reset. P1 applies to all of them alike.
 //
 // Deliberately NOT asserted (the statement does not say it): that Put is refused after a shutdown,
 // that Get returns nil after a shutdown, that a refused Put closes the connection, that the janitor
@@ -41,23 +48,32 @@ import (
 // ---------------------------------------------------------------------------------------------
 
 type phOp struct {
-	Kind string   `json:"op"`                // put-new | get | put-back | close-held | advance | cleanup | stop
-	B    int      `json:"backend,omitempty"` // put-new, get
-	Pick int      `json:"pick,omitempty"`    // put-back, close-held: selects among the connections currently checked out (mod their number)
-	Ms   int      `json:"ms,omitempty"`      // advance: virtual milliseconds
-	Via  []string `json:"via,omitempty"`     // stop: one entry per call, "lb.Stop" | "pool.Shutdown"; more than one = concurrent calls
-	With []phOp   `json:"with,omitempty"`    // stop: pool operations issued concurrently with the call(s)
+	Kind string `json:"op"`                // put-new | put-burst | get | put-back | close-held | advance | cleanup | stop
+	B    int    `json:"backend,omitempty"` // put-new, put-burst, get
+	// Peer (put-new, put-burst): how the other end of the fresh connection behaves (conn_test.go: answers |
+	// answers-late | silent | stalled | chatty | gone-fin | gone-rst); DelayMs: answers-late. Count: put-burst,
+	// that many fresh connections are offered one after the other (the pool keeps max_idle per backend).
+	Peer    string   `json:"peer,omitempty"`
+	DelayMs int      `json:"delay_ms,omitempty"`
+	Count   int      `json:"count,omitempty"`
+	Pick    int      `json:"pick,omitempty"` // put-back, close-held: selects among the connections currently checked out (mod their number)
+	Ms      int      `json:"ms,omitempty"`   // advance: virtual milliseconds
+	Via     []string `json:"via,omitempty"`  // stop: one entry per call, "lb.Stop" | "pool.Shutdown"; more than one = concurrent calls
+	With    []phOp   `json:"with,omitempty"` // stop: pool operations issued concurrently with the call(s)
 }
 
 type phCase struct {
-	N            int      `json:"n"`
-	MaxIdle      int      `json:"max_idle"`       // 0 = not set (Helios default 10)
-	IdleTimeoutS int      `json:"idle_timeout_s"` // 0 = not set (Helios default 5 min)
-	Active       bool     `json:"active_probing"`
-	IntervalS    int      `json:"interval_s,omitempty"`
-	TimeoutS     int      `json:"timeout_s,omitempty"`
-	Probe        []string `json:"probe,omitempty"` // ok | held
-	Ops          []phOp   `json:"ops"`             // a final sequential lb.Stop() is always appended
+	N            int `json:"n"`
+	MaxIdle      int `json:"max_idle"`       // 0 = not set (Helios default 10)
+	IdleTimeoutS int `json:"idle_timeout_s"` // 0 = not set (Helios default 5 min)
+	// ShutdownS: server.timeouts.shutdown of the configuration (0 = not set, documented default 30 s). The
+	// statement's bound: no shutdown call may take longer than this, whatever the pool holds.
+	ShutdownS int      `json:"shutdown_s"`
+	Active    bool     `json:"active_probing"`
+	IntervalS int      `json:"interval_s,omitempty"`
+	TimeoutS  int      `json:"timeout_s,omitempty"`
+	Probe     []string `json:"probe,omitempty"` // ok | held
+	Ops       []phOp   `json:"ops"`             // a final sequential lb.Stop() is always appended
 	// optional features of the configuration, drawn on/off (values of the shipped sample file). Rate
 	// limiting is only drawn without active probing: the limiter owns a never-ending janitor goroutine,
 	// so that balancer is built outside the bubble, where a probe checker cannot live.
@@ -66,10 +82,19 @@ type phCase struct {
 	Passive bool `json:"passive_checks,omitempty"`
 }
 
+// genPeer draws the behaviour of the other end of a fresh connection.
+func genPeer(rt *rapid.T, op phOp) phOp {
+	op.Peer = rapid.SampledFrom(peerKinds).Draw(rt, "peer")
+	if op.Peer == "answers-late" {
+		op.DelayMs = rapid.SampledFrom([]int{1, 50, 900, 1100, 2500, 60_000}).Draw(rt, "peer_delay_ms")
+	}
+	return op
+}
+
 func genTraffic(rt *rapid.T, n int) phOp {
 	switch rapid.IntRange(0, 2).Draw(rt, "traffic") {
 	case 0:
-		return phOp{Kind: "put-new", B: rapid.IntRange(0, n-1).Draw(rt, "backend")}
+		return genPeer(rt, phOp{Kind: "put-new", B: rapid.IntRange(0, n-1).Draw(rt, "backend")})
 	case 1:
 		return phOp{Kind: "get", B: rapid.IntRange(0, n-1).Draw(rt, "backend")}
 	}
@@ -93,7 +118,8 @@ func genStop(rt *rapid.T, n int) phOp {
 
 func genPoolHistory(rt *rapid.T) phCase {
 	c := phCase{N: rapid.IntRange(1, 3).Draw(rt, "n"), MaxIdle: rapid.SampledFrom([]int{0, 1, 1, 2, 3, 4}).Draw(rt, "max_idle"),
-		IdleTimeoutS: rapid.SampledFrom([]int{0, 1, 5, 60, 3600, 3600}).Draw(rt, "idle_timeout")}
+		IdleTimeoutS: rapid.SampledFrom([]int{0, 1, 5, 60, 3600, 3600}).Draw(rt, "idle_timeout"),
+		ShutdownS:    rapid.SampledFrom([]int{0, 1, 2, 3, 5, 10}).Draw(rt, "shutdown_timeout")}
 	if rapid.IntRange(0, 2).Draw(rt, "active") == 0 {
 		c.Active = true
 		c.IntervalS = rapid.IntRange(2, 10).Draw(rt, "interval")
@@ -114,8 +140,12 @@ func genPoolHistory(rt *rapid.T) phCase {
 	n := rapid.IntRange(3, 24).Draw(rt, "ops")
 	for i := 0; i < n; i++ {
 		switch k := rapid.IntRange(0, 20).Draw(rt, "op"); {
+		case k < 1:
+			// the pool of one backend is filled (up to its max_idle: Helios's default is 10) with connections to
+			// peers of one kind - what a backend that hangs or restarts leaves behind
+			c.Ops = append(c.Ops, genPeer(rt, phOp{Kind: "put-burst", B: rapid.IntRange(0, c.N-1).Draw(rt, "backend"), Count: rapid.IntRange(2, 12).Draw(rt, "burst")}))
 		case k < 4:
-			c.Ops = append(c.Ops, phOp{Kind: "put-new", B: rapid.IntRange(0, c.N-1).Draw(rt, "backend")})
+			c.Ops = append(c.Ops, genPeer(rt, phOp{Kind: "put-new", B: rapid.IntRange(0, c.N-1).Draw(rt, "backend")}))
 		case k < 8:
 			c.Ops = append(c.Ops, phOp{Kind: "get", B: rapid.IntRange(0, c.N-1).Draw(rt, "backend")})
 		case k < 12:
@@ -159,6 +189,12 @@ type phResult struct {
 	LateLanded    int // Puts accepted concurrently with a shutdown whose connection stayed open (closed by a later call)
 	ClosedHandout int // Get handed out a connection a shutdown had closed (not judged here)
 	Noop          int
+	Unresponsive  int // shutdown groups issued while >= 1 open idle connection had a peer that never answers promptly
+	MaxIdleAtStop int // largest number of open idle connections a shutdown call found
+	Peers         map[string]bool
+	// live: while a shutdown call (group) is running, a func() string describing it and what the pool held
+	// (for the real-time watchdog, should the call freeze the bubble)
+	live atomic.Value
 }
 
 type phCall struct {
@@ -189,6 +225,7 @@ func (c phCase) config() *config.Config {
 	cfg.LoadBalancer.WebSocketPool.MaxIdle = c.MaxIdle
 	cfg.LoadBalancer.WebSocketPool.MaxActive = 100
 	cfg.LoadBalancer.WebSocketPool.IdleTimeoutSeconds = c.IdleTimeoutS
+	cfg.Server.Timeouts.Shutdown = c.ShutdownS
 	if c.Rate {
 		cfg.RateLimit.Enabled, cfg.RateLimit.MaxTokens, cfg.RateLimit.RefillRate = true, 100, 1
 	}
@@ -245,11 +282,24 @@ func (c phCase) inBubble(fn *lab.FakeNet, r *phResult, pre *loadbalancer.LoadBal
 
 	var conns []*phConn
 	byConn := map[net.Conn]*phConn{}
-	newConn := func(b int) *phConn {
-		pc := &phConn{c: &poolConn{backend: b}, id: len(conns), state: phHeld}
+	r.Peers = map[string]bool{}
+	newConn := func(op phOp) *phConn {
+		pc := &phConn{c: newPoolConn(op.B, op.Peer, op.DelayMs), id: len(conns), state: phHeld}
 		conns = append(conns, pc)
 		byConn[pc.c] = pc
+		r.Peers[op.Peer] = true
 		return pc
+	}
+	// whatever a misbehaving shutdown call may still be waiting for on a connection ends with the case
+	defer func() {
+		for _, pc := range conns {
+			pc.c.abandon()
+		}
+	}()
+	// the statement's bound for one shutdown call: the configured shutdown timeout (documented default 30 s)
+	budget := 30 * time.Second
+	if c.ShutdownS > 0 {
+		budget = time.Duration(c.ShutdownS) * time.Second
 	}
 	held := func() []*phConn {
 		var out []*phConn
@@ -280,17 +330,35 @@ func (c phCase) inBubble(fn *lab.FakeNet, r *phResult, pre *loadbalancer.LoadBal
 	runStop := func(opIdx int, op phOp) bool {
 		// what is idle in the pool at the moment the call is issued
 		var before []*phConn
-		openIdle, returnedIdle := 0, 0
+		openIdle, returnedIdle, deaf := 0, 0, 0
 		for _, pc := range conns {
 			if pc.state == phPooled {
 				before = append(before, pc)
 				if pc.c.closed.Load() == 0 {
 					openIdle++
+					if unresponsive(pc.c.peer, int(pc.c.delay/time.Millisecond)) {
+						deaf++
+					}
 					if pc.heldAtStop {
 						returnedIdle++
 					}
 				}
 			}
+		}
+		if deaf > 0 {
+			r.Unresponsive++
+		}
+		if openIdle > r.MaxIdleAtStop {
+			r.MaxIdleAtStop = openIdle
+		}
+		// pooled: for a violation message, what the pool held when the call was issued and what it did with it
+		pooled := func() string {
+			var cs []*poolConn
+			var ids []int
+			for _, pc := range before {
+				cs, ids = append(cs, pc.c), append(ids, pc.id)
+			}
+			return describePooled(cs, ids)
 		}
 		if stopsSoFar > 0 && openIdle > 0 {
 			r.OpenAtRepeat++
@@ -305,7 +373,7 @@ func (c phCase) inBubble(fn *lab.FakeNet, r *phResult, pre *loadbalancer.LoadBal
 			tr := &phTraffic{op: w}
 			switch w.Kind {
 			case "put-new":
-				tr.conn = newConn(w.B)
+				tr.conn = newConn(w)
 			case "put-back":
 				if len(avail) == 0 {
 					r.Noop++
@@ -322,6 +390,21 @@ func (c phCase) inBubble(fn *lab.FakeNet, r *phResult, pre *loadbalancer.LoadBal
 				pc.heldAtStop = true
 			}
 		}
+		r.live.Store(func() string {
+			d := fmt.Sprintf("history op %d, shutdown call(s) %v with %d concurrent pool operation(s) running: %s", opIdx, op.Via, len(traffic), pooled())
+			var cs []*poolConn
+			var ids []int
+			for _, tr := range traffic {
+				if tr.conn != nil {
+					cs, ids = append(cs, tr.conn.c), append(ids, tr.conn.id)
+				}
+			}
+			if len(cs) > 0 {
+				d += "; " + describeConns(cs, ids, "were offered to the pool concurrently with the call(s)")
+			}
+			return d
+		})
+		defer r.live.Store(func() string { return "" })
 		calls := make([]*phCall, len(op.Via))
 		for i, via := range op.Via {
 			calls[i] = &phCall{via: via}
@@ -366,12 +449,12 @@ func (c phCase) inBubble(fn *lab.FakeNet, r *phResult, pre *loadbalancer.LoadBal
 			all = all && cl.returned.Load()
 		}
 		if !all {
-			time.Sleep(to + eps)
+			time.Sleep(min(to, budget) + eps)
 			synctest.Wait()
 		}
 		for i, cl := range calls {
 			if !cl.returned.Load() {
-				r.Viol = fmt.Sprintf("op %d: %s call #%d (called at t0+%v) has not returned %v of virtual time later: shutdown does not complete", opIdx, cl.via, i+1, cl.callAt, time.Since(t0)-cl.callAt)
+				r.Viol = fmt.Sprintf("op %d: %s call #%d (called at t0+%v) has not returned %v of virtual time later (configured shutdown timeout %v): shutdown does not complete; %s", opIdx, cl.via, i+1, cl.callAt, time.Since(t0)-cl.callAt, budget, pooled())
 				return false
 			}
 			if cl.panicked != "" {
@@ -379,7 +462,11 @@ func (c phCase) inBubble(fn *lab.FakeNet, r *phResult, pre *loadbalancer.LoadBal
 				return false
 			}
 			if c.Active && cl.retAt-cl.callAt > to+eps {
-				r.Viol = fmt.Sprintf("op %d: %s call #%d took %v of virtual time; the probe timeout is %v", opIdx, cl.via, i+1, cl.retAt-cl.callAt, to)
+				r.Viol = fmt.Sprintf("op %d: %s call #%d took %v of virtual time; the probe timeout is %v; %s", opIdx, cl.via, i+1, cl.retAt-cl.callAt, to, pooled())
+				return false
+			}
+			if cl.retAt-cl.callAt > budget {
+				r.Viol = fmt.Sprintf("op %d: %s call #%d took %v of virtual time; the configured shutdown timeout is %v; %s", opIdx, cl.via, i+1, cl.retAt-cl.callAt, budget, pooled())
 				return false
 			}
 		}
@@ -448,12 +535,14 @@ func (c phCase) inBubble(fn *lab.FakeNet, r *phResult, pre *loadbalancer.LoadBal
 	ops := append(append([]phOp{}, c.Ops...), phOp{Kind: "stop", Via: []string{"lb.Stop"}})
 	for i, op := range ops {
 		switch op.Kind {
-		case "put-new":
-			pc := newConn(op.B)
-			if pool.Put(lab.BackendHost(op.B), pc.c) {
-				pc.state, pc.putAtOp = phPooled, i
-			} else {
-				pc.state = phRefused
+		case "put-new", "put-burst":
+			for k := 0; k < max(op.Count, 1); k++ {
+				pc := newConn(op)
+				if pool.Put(lab.BackendHost(op.B), pc.c) {
+					pc.state, pc.putAtOp = phPooled, i
+				} else {
+					pc.state = phRefused
+				}
 			}
 		case "get":
 			if got := pool.Get(lab.BackendHost(op.B)); got != nil {
@@ -492,8 +581,9 @@ func (c phCase) inBubble(fn *lab.FakeNet, r *phResult, pre *loadbalancer.LoadBal
 func TestC19StopPoolHistories(t *testing.T) {
 	const name = "stop-pool-history"
 	sub := lab.Sub(name, "rapid histories in virtual time against the real balancer with websocket_pool enabled (1-3 backends, max_idle unset/1-4, idle_timeout unset/1 s/5 s/60 s/1 h, active probing off or on with probes answered or held; circuit breaker and passive checks on or off by draw, rate limiting on or off by draw when active probing is off - that balancer is built outside the bubble because of the limiter's janitor): 3-24 operations over "+
-		"{Put of a fresh fake connection, Get, Put back / Close of a connection obtained from Get, virtual time passes (1 ms .. idle timeout +-1 ms .. past the janitor tick), janitor pass, shutdown call} where a shutdown call is 1-3 concurrent calls of lb.Stop() or pool.Shutdown(), optionally with 1-3 pool operations (Put fresh, Get, Put back) issued concurrently; a final lb.Stop() ends every history; "+
-		"oracle after EVERY shutdown call (group) has returned: each connection that was idle in the pool when it was issued (Put accepted, not handed out since, not handed out by a concurrent Get) reports closed, Stats reports no idle connection beyond the Puts accepted concurrently with the call, no call panics, every call returns (within one probe timeout of virtual time when probing is on); "+
+		"{Put of a fresh fake connection, a burst of 2-12 such Puts for one backend (Helios's default max_idle is 10), Get, Put back / Close of a connection obtained from Get, virtual time passes (1 ms .. idle timeout +-1 ms .. past the janitor tick), janitor pass, shutdown call} where a shutdown call is 1-3 concurrent calls of lb.Stop() or pool.Shutdown(), optionally with 1-3 pool operations (Put fresh, Get, Put back) issued concurrently; a final lb.Stop() ends every history; "+
+		"the other end of every fresh connection follows a drawn script - answers a Close frame at once / after 1 ms-60 s, alive but silent, alive but not reading (writes block), sends pings all the time, has closed (EOF / EPIPE), has reset - with reads and writes that block until the deadline set on the connection or its Close, as on a real TCP connection; server.timeouts.shutdown of the configuration is unset (30 s) or 1-10 s; "+
+		"oracle after EVERY shutdown call (group) has returned: each connection that was idle in the pool when it was issued (Put accepted, not handed out since, not handed out by a concurrent Get) reports closed, Stats reports no idle connection beyond the Puts accepted concurrently with the call, no call panics, every call returns (within one probe timeout of virtual time when probing is on, and never later than the configured shutdown timeout - whatever the peers of the pooled connections do); "+
 		"non-trivial = a repeat shutdown call (not the first of the history) is issued while at least one open connection is idle in the pool")
 	sub.NontrivialFloor(0.40)
 	sub.Floor("returned-between-stops", 0.15)
@@ -502,11 +592,19 @@ func TestC19StopPoolHistories(t *testing.T) {
 	sub.Floor("on=rate_limit", 0.20)
 	sub.Floor("on=circuit_breaker", 0.35)
 	sub.Floor("on=passive_checks", 0.35)
+	sub.Floor("unresponsive-peer-idle-at-stop", 0.35)
+	sub.Floor("idle-at-stop>=4", 0.15)
+	lab.Assume("stop-pool-history: the peers of pooled connections are played by fake net.Conns that block, time out (deadlines are honoured, in virtual time), fail or answer as a TCP connection to such a peer would; a shutdown call that waits on a connection while pool operations queue on the pool's lock freezes the bubble and is reported by the real-time watchdog instead of the virtual-time bound")
 	lab.Assume("stop-pool-history: the websocket pool is not wired into the proxy path, so 'a tunnel checks a connection out and returns it when its session ends' is played through the pool's exported Get/Put/Close with counting fake net.Conns; nothing is claimed about what Put/Get do after a shutdown, only that every shutdown call closes what is idle in the pool when it is issued")
 	lab.Check(t, sub, 8000, 120000, func(rt *rapid.T) {
 		c := genPoolHistory(rt)
 		var r phResult
-		wd := lab.StartWatchdog(t.Name(), name, lab.NoProgress, func() any { return map[string]any{"case": c} })
+		wd := lab.StartWatchdogDetail(t.Name(), name, lab.NoProgress, func() any { return map[string]any{"case": c} }, func() string {
+			if f, ok := r.live.Load().(func() string); ok {
+				return f()
+			}
+			return ""
+		})
 		fn := lab.NewFakeNet()
 		var panicked any
 		var pre *loadbalancer.LoadBalancer
@@ -539,6 +637,18 @@ func TestC19StopPoolHistories(t *testing.T) {
 			if f.on {
 				labels = append(labels, "on="+f.name)
 			}
+		}
+		labels = append(labels, fmt.Sprintf("shutdown_timeout=%ds", c.ShutdownS))
+		for _, k := range peerKinds {
+			if r.Peers[k] {
+				labels = append(labels, "peer="+k)
+			}
+		}
+		if r.Unresponsive > 0 {
+			labels = append(labels, "unresponsive-peer-idle-at-stop")
+		}
+		if r.MaxIdleAtStop >= 4 {
+			labels = append(labels, "idle-at-stop>=4")
 		}
 		if r.OpenAtRepeat > 0 {
 			labels = append(labels, "open-idle-at-repeat-stop")
